@@ -11,7 +11,7 @@ from checks import v3hist
 from vlib import core, drivers, gen
 
 LEVEL = "exploration"
-REPLIES = ["reply", "reply", "reply_time", "reply_time", "none", "report", "garbage", "reply_pad"]
+REPLIES = ["foreign_report", "reply", "reply", "reply_time", "reply_time", "none", "report", "garbage", "reply_pad"]
 
 
 def build_case(u):
